@@ -92,3 +92,26 @@ def register(reg):
         mutants=[('xmin >= shape[1] or ymin >= shape[0]', 'xmin >= shape[1] or ymin > shape[0]'),
                  ('slice(max(-xmin, 0),', 'slice(max(-ymin, 0),')],
     ))
+
+    # user-supplied positions -> the pixel that contains them.  "n - 1/2 < x <= n + 1/2"
+    # determines n uniquely from x, and shifting x by an integer shifts n by the same integer:
+    # the characterisation is translation covariant (unlike round-half-to-even or truncation)
+    for rel, cls in (('photutils/detection/daofinder.py', 'DAOStarFinder'),
+                     ('photutils/detection/irafstarfinder.py', 'IRAFStarFinder')):
+        reg.record(cls + 'Coords', {'xycoords': ('arr', 2, 'real', 'nonempty')})
+        reg.add(Contract(
+            target=f'{rel}::{cls}._get_raw_catalog', props=['C03', 'C14'], kind='method',
+            stmt='xypos', stmt_like='np.ceil(self.xycoords - 0.5).astype(int)', stmt_nth=1,
+            params={'self': cls + 'Coords'},
+            ensures=[('shape', 'value.shape == self.xycoords.shape'),
+                     ('pixel-containing-the-position',
+                      'forall(lambda i, j: value[i, j] - 0.5 < self.xycoords[i, j] and '
+                      'self.xycoords[i, j] <= value[i, j] + 0.5, '
+                      '(0, value.shape[0]), (0, value.shape[1]))'),
+                     ('integer-valued',
+                      'forall(lambda i, j: exists(lambda n: value[i, j] == n, None), '
+                      '(0, value.shape[0]), (0, value.shape[1]))')],
+            mutants=[('np.ceil(self.xycoords - 0.5).astype(int)', 'np.round(self.xycoords).astype(int)'),
+                     ('np.ceil(self.xycoords - 0.5).astype(int)', 'self.xycoords.astype(int)'),
+                     ('np.ceil(self.xycoords - 0.5).astype(int)', 'np.floor(self.xycoords + 0.5).astype(int)')],
+        ))
